@@ -212,7 +212,7 @@ func (vc *VC) droppedCall(st *State, resV ssa.Value, callee *ssa.Function, c *ss
 	full := callee.String()
 	vc.setFresh(st, resV, "lib")
 	switch full {
-	case "errors.New", "fmt.Errorf":
+	case "errors.New", "fmt.Errorf", "errors.Join":
 		vc.assume(st, sx("not", sx("=", vc.vals[resV], "0")))
 	case "math.IsNaN":
 		if !vc.spec.FloatFP {
